@@ -2,7 +2,7 @@
 # Re-runs every kept seeded mutant (seeded/<id>/patch.diff) against the check of its property (and any extra checks
 # named in seeded/<id>/also.txt) and rewrites seeded/<id>/meta.json "checks_run" + seeded/README.md.
 cd "$(dirname "$0")/.." || exit 3
-for d in seeded/C*/; do
+for d in seeded/${1:-C*}/; do
   id=$(basename "$d"); P=${id%-*}
   extra=""; [ -f "$d/also.txt" ] && extra=$(cat "$d/also.txt")
   out=$(selftest/run_mutant.sh "$d/patch.diff" $P $extra 2>&1)
